@@ -28,7 +28,11 @@ Definition tbind {A B} (p : tres A) (k : A -> tres B) : tres B :=
   end.
 
 (* a callback of a built-in method: its result when it produced no event *)
-Definition quiet (p : tres value) : res value := match snd p with [] => fst p | _ :: _ => Unsup end.
+Definition quiet (p : tres value) : res value :=
+  match fst p with
+  | OOF => OOF
+  | r => match snd p with [] => r | _ :: _ => Unsup end
+  end.
 
 Section TraceStep.
 Variable known : list (N * list name).
